@@ -131,6 +131,7 @@ type termKey struct {
 }
 
 type Terms struct {
+	at   ssa.Instruction // the instruction whose operands are being evaluated (in-place big numbers)
 	cur  ssa.Instruction // the load being resolved (flow-sensitive store filtering)
 	cx   *Ctx
 	memo map[termKey]*Term
@@ -167,6 +168,12 @@ func (ts *Terms) of(v ssa.Value, fr *Frame, depth int) *Term {
 	}
 	if depth > 60 {
 		return mk("const", "?deep")
+	}
+	// a *big.Int accumulated in place (sum.Add(sum, x)): its value depends on where it is used
+	if ts.at != nil && depth < 50 {
+		if t := ts.bigPtrState(v, fr, depth); t != nil {
+			return t
+		}
 	}
 	k := termKey{v, fr}
 	if t, ok := ts.memo[k]; ok {
@@ -1174,6 +1181,9 @@ func (ts *Terms) callArgs(c *ssa.Call, fr *Frame, depth int, skip ssa.Value) []*
 	if cc.IsInvoke() {
 		out = append(out, ts.of(cc.Value, fr, depth+1))
 	}
+	saved := ts.at
+	ts.at = c
+	defer func() { ts.at = saved }()
 	for _, a := range cc.Args {
 		if a == skip {
 			continue
@@ -1183,6 +1193,107 @@ func (ts *Terms) callArgs(c *ssa.Call, fr *Frame, depth int, skip ssa.Value) []*
 			continue
 		}
 		out = append(out, t)
+	}
+	return out
+}
+
+// isBigPtr: *big.Int / *big.Rat / *big.Float.
+func isBigPtr(t types.Type) bool {
+	p, ok := t.(*types.Pointer)
+	if !ok {
+		return false
+	}
+	n, ok := p.Elem().(*types.Named)
+	return ok && n.Obj().Pkg() != nil && n.Obj().Pkg().Path() == "math/big"
+}
+
+var bigMutators = map[string]bool{"Add": true, "Sub": true, "Mul": true, "Div": true, "Quo": true, "Mod": true, "Rem": true, "Set": true, "SetBytes": true, "SetInt64": true, "SetUint64": true, "SetString": true, "Exp": true, "Neg": true, "Abs": true, "Sqrt": true, "Lsh": true, "Rsh": true, "SetFrac": true, "SetInt": true, "And": true, "Or": true, "Xor": true, "Not": true, "DivMod": true, "QuoRem": true, "ModInverse": true, "GCD": true}
+
+// bigRoot: the object a *big.X value points to: the methods that write their receiver
+// return it, so z.Add(z, x) and z are the same object.
+func bigRoot(v ssa.Value, d int) ssa.Value {
+	for ; d < 12; d++ {
+		c, ok := v.(*ssa.Call)
+		if !ok || c.Common().IsInvoke() {
+			return v
+		}
+		pkg, name := calleeName(c.Common())
+		if pkg != "math/big" || len(c.Common().Args) == 0 {
+			return v
+		}
+		m := name[strings.LastIndex(name, ".")+1:]
+		if !bigMutators[m] || !isBigPtr(c.Type()) {
+			return v
+		}
+		v = c.Common().Args[0]
+	}
+	return v
+}
+
+// bigPtrState: the value of the big number v points to where ts.at uses it: the last write
+// of the object that dominates the use (nil: v was not written in place after its creation).
+func (ts *Terms) bigPtrState(v ssa.Value, fr *Frame, depth int) *Term {
+	if !isBigPtr(v.Type()) {
+		return nil
+	}
+	at := ts.at
+	root := bigRoot(v, 0)
+	in, ok := root.(ssa.Instruction)
+	if !ok || in.Parent() == nil || in.Parent() != at.Parent() {
+		return nil
+	}
+	var last *ssa.Call
+	var maybe []*ssa.Call // writes on some paths to the use only (if oracle { sum.Add(sum, seed) })
+	n := 0
+	for _, b := range in.Parent().Blocks {
+		for _, ins := range b.Instrs {
+			c, ok := ins.(*ssa.Call)
+			if !ok || c.Common().IsInvoke() || len(c.Common().Args) == 0 || ssa.Instruction(c) == at {
+				continue
+			}
+			pkg, name := calleeName(c.Common())
+			if pkg != "math/big" || !bigMutators[name[strings.LastIndex(name, ".")+1:]] {
+				continue
+			}
+			if bigRoot(c.Common().Args[0], 0) != root {
+				continue
+			}
+			n++
+			if !instrDominates(c, at) {
+				if instrReaches(c, at) && !inLoop(c.Block()) {
+					maybe = append(maybe, c)
+				}
+				continue
+			}
+			if last == nil || instrDominates(last, c) {
+				last = c
+			}
+		}
+	}
+	// written once (where it is created): the ordinary term of the value
+	if last == nil || n <= 1 || (ssa.Value(last) == v && len(maybe) == 0) {
+		return nil
+	}
+	state := func(m *ssa.Call) *Term {
+		saved := ts.at
+		ts.at = m
+		t := &Term{Op: "call", Name: callName(m), Site: m.Pos(), src: m, fr: fr}
+		for _, a := range m.Common().Args {
+			t.Args = append(t.Args, ts.of(a, fr, depth+1))
+		}
+		ts.at = saved
+		return canon(t)
+	}
+	out := state(last)
+	if len(maybe) > 0 && len(maybe) <= 4 {
+		alts := map[string]*Term{out.String(): out}
+		for _, m := range maybe {
+			if instrDominates(last, m) {
+				t := state(m)
+				alts[t.String()] = t
+			}
+		}
+		out = phiOf(alts)
 	}
 	return out
 }
